@@ -8,6 +8,6 @@ WT=$(mktemp -d /var/tmp/scratchcheck-XXXXXX); rmdir $WT
 git -C /repo worktree add -q --detach $WT HEAD || exit 3
 cp /repo/go.sum $WT/go.sum
 if ! (cd $WT && git apply "$PATCH"); then echo "patch does not apply" > "$LOG"; git -C /repo worktree remove --force $WT; rm -rf $WT; exit 4; fi
-/verif/bin/govc check $PROP -tier quick -repo $WT -verif /verif -noevidence > "$LOG" 2>&1; rc=$?
+${GOVC:-/verif/bin/govc} check $PROP -tier quick -repo $WT -verif /verif -noevidence > "$LOG" 2>&1; rc=$?
 git -C /repo worktree remove --force $WT; rm -rf $WT
 exit $rc
